@@ -70,7 +70,7 @@ Ok(c) ==
               \E g \in Set(c.got) :
                 /\ g.name = e.name /\ g.type = e.type /\ (e.type = "file" => g.size = e.size)
                 /\ IF c.format = "mlsx" THEN g.modify = MlsxStamp(e.mtime)
-                   ELSE Ambiguous(e.mtime, c.now, c.now) \/ g.modify = LsExpected(e.mtime, c.now, c.off) \o <<0>>
+                   ELSE ~c.timectl \/ Ambiguous(e.mtime, c.now, c.now) \/ g.modify = LsExpected(e.mtime, c.now, c.off) \o <<0>>
     [] OTHER -> FALSE
 Init == i = 1
 Next == i <= Len(Cases) /\ i' = i + 1
